@@ -182,3 +182,134 @@ contract(RX + 'PRNGState.restore', props=['C14'],
          ensures=[('restores-the-saved-state-iff-one-was-saved',
                    "(prng_log() == ['setstate'] and restored_saved_state()) if hasattr(self, 'saved') "
                    "else prng_log() == []")])
+
+
+# ---------------------------------------------------------------------------
+# C03: the run-length range helpers only ever widen ranges
+# ---------------------------------------------------------------------------
+
+def _vrle_elem(it, name, fixed):
+    c = it.fresh(T.enum('C', '.'), name + '.cat')
+    m = it.fresh(T.nat, name + '.m')
+    M = it.fresh(T.nat, name + '.M')
+    it.path.assume(num_z(m)[0] <= num_z(M)[0])
+    return (c, m, M, 'fixed') if fixed else (c, m, M)
+
+
+def _plusify_arg(it, name):
+    fixed = it.path.choose([True, True]) == 1
+    c = 'C'
+    m = it.fresh(T.nat, name + '.m')
+    M = it.fresh(T.union(T.none, T.nat), name + '.M')
+    if M is not None:
+        it.path.assume(num_z(m)[0] <= num_z(M)[0])
+    return (c, m, M, 'fixed') if fixed else (c, m, M)
+
+
+@specfn
+def range_covers(it, new, old):
+    """new = (cat, m', M'[, fixed]) covers old = (cat, m, M[, fixed]); None = no upper limit."""
+    if new[0] != old[0] or len(new) != len(old) or new[3:] != old[3:]:
+        return False
+    zs = [num_z(new[1])[0] <= num_z(old[1])[0]]
+    if new[2] is None:
+        pass
+    elif old[2] is None:
+        return False
+    else:
+        zs.append(num_z(old[2])[0] <= num_z(new[2])[0])
+    return SBool(z3.And(*zs))
+
+
+@specfn
+def max_vrle_range(it):
+    return extract.load_module('tdda/rexpy/rexpy.py').resolve('MAX_VRLE_RANGE')
+
+
+contract(RX + 'plusify_vrle', props=['C03'],
+         params=dict(vrle=T.custom(_plusify_arg)),
+         spec_env=dict(ENV, range_covers=range_covers, max_vrle_range=max_vrle_range), result=T.opaque,
+         ensures=[('covers-the-input-range', 'range_covers(result, vrle)'),
+                  ('narrow-ranges-kept-exactly',
+                   'vrle[2] is None or (vrle[2] - vrle[1]) > max_vrle_range() or result == vrle')])
+
+
+def _rle_arg(it, name):
+    k = 1 + it.path.choose([True, True])
+    out = []
+    for i in range(k):
+        c = it.fresh(T.enum('C', '.'), '%s%d.cat' % (name, i))
+        n = it.fresh(T.nat, '%s%d.n' % (name, i))
+        it.path.assume(num_z(n)[0] >= 1)
+        out.append((c, n))
+    return out
+
+
+def _vrle_arg(it, name):
+    which = it.path.choose([True, True, True, True])
+    if which == 0:
+        return None
+    if which == 1:
+        return False
+    fixed = it.ghost.get('expand_fixed', False)
+    return [_vrle_elem(it, '%s%d' % (name, i), fixed and False) for i in range(which - 1)]
+
+
+@specfn
+def expanded_ok(it, rle, vrle, result, variableLength):
+    """Every run of rle lies in the corresponding range of the result, and each result range
+    covers the old one (ranges only widen); extra fragments become optional (minimum 0)."""
+    if result is False:
+        return True
+    if vrle is None:
+        return (len(result) == len(rle)
+                and all(r[0] == o[0] and o[1] is r[1] and o[2] is r[1] for r, o in zip(rle, result)))
+    zs = []
+    lc = min(len(rle), len(vrle))
+    if len(result) != max(len(rle), len(vrle)):
+        return False
+    for i in range(lc):
+        r, v, o = rle[i], vrle[i], result[i]
+        if o[0] != r[0] or o[0] != v[0]:
+            return False
+        zs += [num_z(o[1])[0] <= num_z(r[1])[0], num_z(r[1])[0] <= num_z(o[2])[0],
+               num_z(o[1])[0] <= num_z(v[1])[0], num_z(v[2])[0] <= num_z(o[2])[0]]
+    for i in range(lc, len(result)):
+        o = result[i]
+        src = rle[i] if i < len(rle) else vrle[i]
+        top = src[1] if i < len(rle) else src[2]
+        if o[0] != src[0]:
+            return False
+        zs += [num_z(o[1])[0] == 0, num_z(top)[0] <= num_z(o[2])[0]]
+    return SBool(z3.And(*zs)) if zs else True
+
+
+@specfn
+def falsified_only_when_inconsistent(it, rle, vrle, result, variableLength):
+    """False is returned only for a different category sequence (or a different length without
+    variable-length fragments), or when a counter-example had already been found."""
+    if result is not False:
+        return True
+    if vrle is False:
+        return True
+    if vrle is None:
+        return False
+    lc = min(len(rle), len(vrle))
+    cats_differ = any(rle[i][0] != vrle[i][0] for i in range(lc))
+    if len(rle) != len(vrle):
+        vl = truth(it, variableLength)
+        if isinstance(vl, bool):
+            return cats_differ or not vl
+        return SBool(z3.Or(z3.BoolVal(cats_differ), z3.Not(vl)))
+    return cats_differ
+
+
+contract(RX + 'expand_or_falsify_vrle', props=['C03'],
+         params=dict(rle=T.custom(_rle_arg), vrle=T.custom(_vrle_arg), fixed=T.const(False),
+                     variableLength=T.bool),
+         spec_env=dict(ENV, expanded_ok=expanded_ok,
+                       falsified_only_when_inconsistent=falsified_only_when_inconsistent),
+         result=T.opaque,
+         ensures=[('ranges-contain-the-new-runs-and-only-widen', 'expanded_ok(rle, vrle, result, variableLength)'),
+                  ('falsified-only-when-inconsistent',
+                   'falsified_only_when_inconsistent(rle, vrle, result, variableLength)')])
